@@ -103,7 +103,7 @@ async fn startup_udp<const N: usize>(
         let inbound = UdpSocket::bind(format!("{}:{}", config.host, config.port)).await?;
         let (tx, mut rx) = mpsc::channel::<(BytesMut, Address, SocketAddr, Session<N>)>(1024);
         let ttl = Duration::from_secs(300);
-        let mut net_map: LruCache<u64, UdpAssociate<N>> = LruCache::with_expiry_duration_and_capacity(ttl, 10240);
+        let mut net_map: LruCache<AssociationKey, UdpAssociate<N>> = LruCache::with_expiry_duration_and_capacity(ttl, 10240);
         let mut cleanup_timer = time::interval(ttl);
         info!("Udp server running => {}|{}|{}:{}", config.protocol, config.cipher, config.host, config.port);
         let mut buf = [0; 0x10000];
@@ -115,7 +115,7 @@ async fn startup_udp<const N: usize>(
                 // p_s_c
                 peer_msg = rx.recv() => {
                     if let Some((content, peer_addr, client_addr, session)) = peer_msg {
-                        net_map.get(&if config.cipher.is_aead_2022() { session.client_session_id } else { legacy_session_key(client_addr) }); // keep alive
+                        net_map.get(&association_key(config.cipher.is_aead_2022(), &session, client_addr)); // keep alive
                         let mut dst = BytesMut::new();
                         if let Err(e) = SessionCodec::encode(&codec, (content, peer_addr, session), &mut dst) {
                             error!("[udp] encode failed; error={e}")
@@ -134,8 +134,7 @@ async fn startup_udp<const N: usize>(
                             let mut src = BytesMut::from(&buf[..len]);
                             match SessionCodec::<N>::decode(&codec, &mut src) {
                                 Ok(Some((content, peer_addr, session))) => {
-                                    // legacy (SIP004) datagrams carry no session id: the client's address identifies its session
-                                    let key = if config.cipher.is_aead_2022() { session.client_session_id } else { legacy_session_key(client_addr) };
+                                    let key = association_key(config.cipher.is_aead_2022(), &session, client_addr);
                                     // one client's trouble must not stop the service: a failure here costs that datagram only
                                     if let Some(assoc) = net_map.get_mut(&key) {
                                         if let Err(e) = assoc.try_send((content, peer_addr, session)).await {
@@ -169,6 +168,19 @@ async fn startup_udp<const N: usize>(
         Ok(())
     } else {
         super::startup_quic(context.clone(), config, |c| Ok(PayloadCodec::from(c))).await
+    }
+}
+
+/// (identity hash of the authenticated user, session key)
+type AssociationKey = (Option<[u8; 16]>, u64);
+
+/// A session belongs to the user that opened it: a session id named by another user is another session.
+/// Legacy (SIP004) datagrams carry no session id: the client's address identifies its session.
+fn association_key<const N: usize>(aead_2022: bool, session: &Session<N>, client_addr: SocketAddr) -> AssociationKey {
+    if aead_2022 {
+        (session.user.as_ref().map(|u| u.identity_hash()), session.client_session_id)
+    } else {
+        (None, legacy_session_key(client_addr))
     }
 }
 
